@@ -33,7 +33,9 @@ TECHNIQUE = 'Lean 4 proofs over the multimap algebra (merge/rename/prepend/set) 
 
 USER_SECS = {
     'Unit': ['After=dev-disk-by\\x2dlabel-data.device', 'ConditionPathExists=/mnt/my\\sdata', 'Description="Data" container', 'Description=a\tb', "Description='q' \\\"r",
-             'Description=d e', 'After=x.service', 'After=', 'After=y.service z.service', 'Wants=w.target', 'Requires=r.service', 'Documentation=man:foo(1)', 'SourcePath=/mine'],
+             'Description=d e', 'After=x.service', 'After=', 'After=y.service z.service', 'Wants=w.target', 'Requires=r.service', 'Documentation=man:foo(1)', 'SourcePath=/mine',
+             # the user's reset of a dependency list (alone, and followed by a new value), for every list the generator adds to
+             'Wants=', 'Wants=', 'Wants=foo.service', 'Requires=', 'Before=', 'BindsTo=', 'RequiresMountsFor=', 'RequiresMountsFor=/mnt/x'],
     'Service': ['Environment="A=a b" B=\\x41', 'ExecStartPre=/bin/sh -c "echo \\"x\\" \\\\ y"', 'ExecReload=/bin/kill -HUP $MAINPID', 'Restart=always', 'Environment=A=1', 'Environment=', 'Environment=B=2', 'ExecStartPre=/bin/true', 'ExecStartPre=', 'TimeoutStartSec=900', 'KillMode=mixed',
                 'KillMode=control-group', 'Type=oneshot', 'Type=notify', 'SyslogIdentifier=me', 'RemainAfterExit=no', 'WorkingDirectory=/w', 'NotifyAccess=main', 'ExecStart=/bin/mine',
                 'Delegate=no'],
@@ -182,6 +184,10 @@ def oracle(ctx):
         deps = [('Wants', 'network-online.target'), ('After', 'network-online.target')] if enabled else []
         if unit[:len(deps)] != deps or unit[len(deps):len(deps) + len(uu)] != uu:
             fails.append(f'[Unit] must be the default dependencies {deps}, then the user\'s entries {uu}, then generated entries: {unit}')
+        # … and ONLY there: what follows the user's entries must not bring a default dependency back (the user's reset keeps the last word)
+        late = [e for e in unit[len(deps) + len(uu):] if e in (('Wants', 'network-online.target'), ('After', 'network-online.target'))]
+        if late:
+            fails.append(f'[Unit]: a default dependency is added again after the user\'s entries {uu}: {late} in {unit}')
         # managed settings keep the user's permitted choice
         svc = ssecs.get('Service', [])
 
